@@ -62,6 +62,16 @@ def gen_ops(ch: Choices, cap: int, budget: int, avoid: set, calm: bool, nv: bool
     live: List[str] = []
     nq = 0
     regmeas = 0      # register measurements since the last flush (a subroutine has 16 M registers)
+    if nv and not calm and cap >= 2 and ch.flag(1, 3, "nvmulti"):
+        # single-communication-qubit hardware: a multi-pair keep while nothing else is alive (every pair but the last is
+        # moved from ID 0 to a memory qubit), on either role
+        m = min(2 + ch.draw(2, "npairs"), cap)
+        names = []
+        for _i in range(m):
+            names.append(f"q{nq}")
+            nq += 1
+        live.extend(names)
+        ops.append(("keep_plain", "create" if ch.flag(1, 3, "role") else "recv", names))
     for _ in range(n):
         kinds = []
         w = []
@@ -171,6 +181,9 @@ def run(ch: Choices, opts: Dict[str, Any]) -> Dict[str, Any]:
     link = FakeLink(ch, sched, trace, legacy=False, max_gen_delay=0 if calm else 200, max_deliver_delay=0 if calm else 200)
     node = ControllerNode("n0", 0, qm, lambda: sched.now, flavour="nv" if transp else "vanilla", link=link)
     ops = gen_ops(ch, max(cap, 0), budget, avoid, calm, nv=(hw == "nv"))
+    if hw == "nv" and ops and ops[0][0] == "keep_plain" and len(ops[0][2]) >= 2 and ch.flag(1, 2, "slowlink"):
+        # a slow link: the pairs of the opening multi-pair keep arrive one by one, each after the previous one was handled
+        link.max_gen_delay = 5000
     faults: Dict[str, int] = {}
     probes: Dict[str, int] = {}
 
